@@ -195,6 +195,10 @@ def classify(pid, results, baseline, known):
                 # ... unless the anchor that vanished carried an explicit assumption (`assume at`): safety proofs rest on those too
                 if any("anchor not found: assume" in d for d in (f.get("drift") or [])):
                     independent = False
+                # ... or a loop invariant was dropped because it names a local the code no longer has (a rename): the index
+                # and slice bounds inside that loop were proved from it
+                if any(("invariant" in d and "names a variable the code no longer has" in d) for d in (f.get("drift") or [])):
+                    independent = False
                 # a guard clause (`requires false` on a call that must not appear) depends on nothing
                 independent = independent or (o["desc"] or "").rstrip().endswith("precondition false")
                 mm = re.search(r"loop(\d+)-invariant", o["clause"])
